@@ -339,6 +339,7 @@ def c08_cfgs(tier):
                                    'FsAS', 'FswAS', 'AsFS', 'AswFwS', 'FsS', 'AsRS', 'AsRsS', 'RsS', 'AsRwsS', 'AsRa',
                                    'EswgS', 'Eswwg', 'Esga', 'EswgsS', 'EswSAsS',
                                    'GsS', 'Gsa', 'GsgS', 'GsAsS', 'GswAsS', 'Gs', 'HsS', 'Hsa', 'HsgS', 'HsAsS', 'Hs',
+                                   'As0B', 'Bs0A', 'As0S', 'As0a', 'As0sS', 'As0AsS',
                                    'KsS', 'Ksa', 'KswgS', 'KswS', 'Ksw', 'KswAsS', 'JsS', 'Jsa', 'Js', 'JswS', 'Js2sS', 'TsS', 'AsTS', 'AsTsS', 'TsAsS', 'AswTa']
         c = [cfg('c08', 'D1', prog=p) for p in progs]
         c += [cfg('c08', 0, prog=p) for p in ('AsS', 'Asa', 'AsBS', 'AsAS', 'AsSsS', 'AsaAsS')]
